@@ -104,14 +104,14 @@ theorem C08_stmts_BatchedWriter_runBatchWriter : stmts_BatchedWriter_runBatchWri
 open Hive.Gen.C08Stmts in
 theorem C08_stmts_newBatchCollector : stmts_newBatchCollector =
     ["func func(batchedMuts BatchedMutations, scheduledCount *atomic.Int32, batchSize int) *BatchCollector",
-      "return &BatchCollector{ batchedMuts: batchedMuts, scheduledCount: scheduledCount, batchSize: batchSize, writtenValues: make([]BatchWriteObject, batchSize), writtenValuesCounter: 0, committed: false, }"] := rfl
+      "return &BatchCollector{ batchedMuts: batchedMuts, scheduledCount: scheduledCount, batchSize: batchSize, writtenValues: make([]BatchWriteObject, 0, max(batchSize, 0)), writtenValuesCounter: 0, committed: false, }"] := rfl
 
 open Hive.Gen.C08Stmts in
 theorem C08_stmts_BatchCollector_Add : stmts_BatchCollector_Add =
     ["func func(objectToPersist BatchWriteObject) (batchSizeReached bool)", "if br.committed",
       "panic(\"mutations were already committed\")", "end", "objectToPersist.ResetBatchWriteScheduled()",
       "br.scheduledCount.Add(-1)", "objectToPersist.BatchWrite(br.batchedMuts)",
-      "br.writtenValues[br.writtenValuesCounter] = objectToPersist", "br.writtenValuesCounter++",
+      "br.writtenValues = append(br.writtenValues, objectToPersist)", "br.writtenValuesCounter++",
       "return br.writtenValuesCounter >= br.batchSize"] := rfl
 
 open Hive.Gen.C08Stmts in
